@@ -320,13 +320,8 @@ def children_embedded_by_value(ctx):
         for o in ev.outcomes(fi):
             if o.kind != "return":
                 continue
-            for e in all_effects(o.effects):
-                if not isinstance(e, App):
-                    continue
-                if e.op == "eff:store":
-                    vals += [e.args[1], e.args[2]]
-                elif e.op == "eff:call" and isinstance(e.args[0], App) and e.args[0].op in ("meth:append", "meth:update", "meth:extend", "meth:insert", "meth:add"):
-                    vals += list(e.args[0].args[1:])
+            for kind_, k_, v_ in generic.container_puts(o):
+                vals += [v_] if k_ is None else [k_, v_]
             for s_ in subterms(o.value):
                 if isinstance(s_, App) and s_.op == "tag":
                     vals.append(s_.args[1])
@@ -484,26 +479,77 @@ def generic_encoder_rules(ctx):
 
     # from_obj of the generic containers: the loop iterates the description / metadata map unfiltered
     R.rule("C02-D7 containers iterate input in order", 8, "loops of generic from_obj/to_cbor iterate the input or instance value unfiltered")
+    ev7 = Evaluator(repo, inline_depth=0)
     for qual in ("SuitKeyValue.from_obj", "SuitKeyValue.to_cbor", "SuitKeyValueTuple.to_cbor", "SuitList.from_obj",
                  "SuitList.to_cbor", "SuitTupleNamed.to_cbor", "SuitKeyValueUnnamed.from_obj",
                  "SuitKeyValueUnnamed.to_cbor", "SuitBitfield.from_obj", "SuitBitfield.to_cbor"):
         fi = repo.func(COMMON, qual)
-        loops = [n for n in walk_no_nested(fi.node) if isinstance(n, ast.For)]
-        outer = [l for l in loops if not any(l is not o and _inside(l, o) for o in loops)]
-        if not outer:
+        sources = _iteration_sources(ev7, fi)
+        if not sources:
             raise AnalysisError(f"{qual}: no loop found")
-        for l in outer:
-            it = ast.unparse(l.iter)
-            ok = it in ("obj.items()", "self.value.items()", "self.value", "obj")
-            R.check("C02-D7 containers iterate input in order", ok, f"{qual}: for … in {it}", mod=fi.module, node=l.iter,
-                    function=ctx.fq(fi), expected="iterate obj / obj.items() / self.value / self.value.items() directly",
-                    found=it)
+        selfv = App("attr:value", (Sym("param:self"),))
+        allowed = (Sym("param:obj"), App("meth:items", (Sym("param:obj"),)), selfv, App("meth:items", (selfv,)))
+        for it, filt, node in sources:
+            R.check("C02-D7 containers iterate input in order", it in allowed and not filt, f"{qual}: for … in {_show_iter(it)}", mod=fi.module, node=node or fi.node,
+                    function=ctx.fq(fi), expected="iterate obj / obj.items() / self.value / self.value.items() directly, unfiltered",
+                    found=_show_iter(it) + (" (filtered)" if filt else ""))
     # SuitTupleNamed.from_obj iterates the metadata map (positions are defined by the schema, not the input)
     fi = repo.func(COMMON, "SuitTupleNamed.from_obj")
-    loops = [n for n in walk_no_nested(fi.node) if isinstance(n, ast.For)]
-    it = ast.unparse(loops[0].iter) if loops else ""
-    R.check("C02-D7 containers iterate input in order", it == "cls._metadata.map.items()", f"SuitTupleNamed.from_obj: for … in {it}",
-            mod=fi.module, node=fi.node, function=ctx.fq(fi), expected="positions follow cls._metadata.map.items()", found=it)
+    sources = _iteration_sources(ev7, fi)
+    want = App("meth:items", (App("attr:map", (App("attr:_metadata", (Sym("param:cls"),)),)),))
+    it = sources[0][0] if sources else None
+    R.check("C02-D7 containers iterate input in order", it == want and not sources[0][1], f"SuitTupleNamed.from_obj: for … in {_show_iter(it)}",
+            mod=fi.module, node=fi.node, function=ctx.fq(fi), expected="positions follow cls._metadata.map.items()", found=_show_iter(it))
+
+
+def _show_iter(it):
+    return repr(it)[:100].replace("$param:", "")
+
+
+def _iteration_sources(ev, fi):
+    """[(iterated term, filtered?, node)] of the outermost iterations of a function - `for` statements and comprehensions alike."""
+    found = []
+
+    def add(it, filt, node):
+        if not any(it == x[0] and filt == x[1] for x in found):
+            found.append((it, filt, node))
+
+    def top(effs):
+        for e in effs:
+            if not isinstance(e, App):
+                continue
+            if e.op == "eff:if":
+                top(e.args[1].args)
+                top(e.args[2].args)
+            elif e.op in ("eff:partial",):
+                top(e.args[0].args)
+            elif e.op == "eff:alts":
+                for alt in e.args:
+                    top(alt.args)
+            elif e.op == "eff:loop":
+                filt = any(isinstance(x, App) and x.op == "eff:assume" for x in e.args[1].args) and isinstance(e.node, (ast.ListComp, ast.GeneratorExp, ast.SetComp, ast.DictComp))
+                add(e.args[0], filt, e.node)
+            else:
+                comps(e)
+
+    def comps(t):
+        for s_ in subterms(t):
+            if isinstance(s_, App) and s_.op.startswith("comp:") and len(s_.args) == 3:
+                add(s_.args[1], bool(s_.args[2].args), s_.node)
+    for o in ev.outcomes(fi):
+        if o.kind != "return":
+            continue
+        top(o.effects)
+        if o.value is not None:
+            comps(o.value)
+    # a comprehension nested in the body of another iteration is not an outermost one
+    inner = set()
+    for it, filt, node in found:
+        if node is not None:
+            for n in ast.walk(node):
+                if n is not node and isinstance(n, (ast.For, ast.ListComp, ast.GeneratorExp, ast.SetComp, ast.DictComp)):
+                    inner.add(id(n))
+    return [f for f in found if f[2] is None or id(f[2]) not in inner]
 
 
 def _inside(inner, outer):
